@@ -81,7 +81,8 @@ def main():
             tb = traceback.extract_tb(e.__traceback__)
             repo = os.path.realpath(os.environ.get('VERIF_REPO', '/repo'))
             inner = tb[-1] if tb else None
-            if inner is not None and os.path.realpath(inner.filename).startswith(repo + os.sep):
+            is_rejection = any(k.__name__ in ('ProgrammingError', 'ParseError', 'CompilationError') for k in type(e).__mro__)     # a statement the harness wrote is rejected: harness error
+            if inner is not None and os.path.realpath(inner.filename).startswith(repo + os.sep) and not is_rejection:
                 emit({'evaluations': 1, 'distinct_nontrivial': 1, 'samples': [], 'rule': 'harness aborted by an exception escaping from the library',
                       'violations': [{'fingerprint': f'{P.PROPS[prop]["harness"]}:library-exception:{type(e).__name__}:{os.path.basename(inner.filename)}:{inner.name}',
                                       'clause': 'the library raises no unexpected exception in the scenarios of the harness',
